@@ -131,8 +131,13 @@ func c11r1lockOnly(r *R) {
 
 func c15r2(r *R) {
 	rr := r.method(mpkg, "proxyConn", "readRequest")
-	// instruction-level: identify the three SetReadDeadline calls, Peek, ReadRequest
-	var sets []*ssa.Call
+	// instruction-level: identify the three SetReadDeadline calls, Peek, ReadRequest. A deadline set through a
+	// helper split out of readRequest counts at the place the helper is called, with the argument it is given.
+	type deadline struct {
+		site ssa.Instruction
+		arg  ssa.Value
+	}
+	var sets []deadline
 	var peek, read *ssa.Call
 	eachInstr(rr, func(ins ssa.Instruction) {
 		c, ok := ins.(*ssa.Call)
@@ -141,11 +146,27 @@ func c15r2(r *R) {
 		}
 		switch calleeName(c.Common()) {
 		case "invoke net.Conn.SetReadDeadline":
-			sets = append(sets, c)
+			arg := c.Common().Args[0]
+			for i := 0; i < 3; i++ {
+				prm, isP := arg.(*ssa.Parameter)
+				if !isP {
+					break
+				}
+				a, ok := resolveParam(prm)
+				if !ok {
+					break
+				}
+				arg = a
+			}
+			sets = append(sets, deadline{siteOf(ins), arg})
 		case "(*bufio.Reader).Peek":
-			peek = c
+			if c.Parent() == rr {
+				peek = c
+			}
 		case "net/http.ReadRequest":
-			read = c
+			if c.Parent() == rr {
+				read = c
+			}
 		}
 	})
 	if len(sets) != 3 || peek == nil || read == nil {
@@ -153,9 +174,9 @@ func c15r2(r *R) {
 		return
 	}
 	idle, hdr, whole := sets[0], sets[1], sets[2]
-	r.check(instrDominates(idle, peek) && describe(peek.Common().Args[1]) == "1", "readRequest#idle-before-wait", idle.Pos(), "idle deadline armed before waiting for the first byte", "the wait for the next request is not covered by the idle deadline")
-	r.check(instrDominates(peek, hdr) && instrDominates(hdr, read), "readRequest#header-deadline-window", hdr.Pos(), "header deadline armed after the first byte and before the head is parsed", "header deadline is not armed between the first byte and the parse")
-	r.check(instrDominates(read, whole), "readRequest#whole-after-head", whole.Pos(), "whole-request deadline replaces the header deadline after the head", "deadline not re-armed after the head")
+	r.check(instrDominates(idle.site, peek) && describe(peek.Common().Args[1]) == "1", "readRequest#idle-before-wait", idle.site.Pos(), "idle deadline armed before waiting for the first byte", "the wait for the next request is not covered by the idle deadline")
+	r.check(instrDominates(peek, hdr.site) && instrDominates(hdr.site, read), "readRequest#header-deadline-window", hdr.site.Pos(), "header deadline armed after the first byte and before the head is parsed", "header deadline is not armed between the first byte and the parse")
+	r.check(instrDominates(read, whole.site), "readRequest#whole-after-head", whole.site.Pos(), "whole-request deadline replaces the header deadline after the head", "deadline not re-armed after the head")
 	// clock readings
 	clockOf := func(v ssa.Value) []*ssa.Call {
 		var out []*ssa.Call
@@ -168,39 +189,38 @@ func c15r2(r *R) {
 	}
 	for _, s := range []struct {
 		name string
-		call *ssa.Call
+		call deadline
 		dur  string
 	}{{"header", hdr, "(*martian.Proxy).readHeaderTimeout($0.Proxy)"}, {"whole-request", whole, "$0.Proxy.ReadTimeout"}} {
-		clocks := clockOf(s.call.Common().Args[0])
+		clocks := clockOf(s.call.arg)
 		okc := len(clocks) > 0
 		for _, c := range clocks {
 			if !instrDominates(peek, c) {
 				okc = false
 			}
 		}
-		d := describe(s.call.Common().Args[0])
-		r.check(okc && strings.Contains(d, s.dur), "readRequest#"+s.name+"-deadline-base", s.call.Pos(), "computed from a clock reading taken after the first byte, plus "+s.dur, "the "+s.name+" deadline is "+d+"; its clock must be read after the first byte of the request arrived (otherwise idle time counts against the request) and its duration must be "+s.dur)
+		d := describe(s.call.arg)
+		r.check(okc && strings.Contains(d, s.dur), "readRequest#"+s.name+"-deadline-base", s.call.site.Pos(), "computed from a clock reading taken after the first byte, plus "+s.dur, "the "+s.name+" deadline is "+d+"; it must be counted from a clock reading taken after the first byte of the request arrived, with "+s.dur)
 	}
-	d := describe(idle.Common().Args[0])
-	r.check(strings.Contains(d, "(*martian.Proxy).idleTimeout($0.Proxy)"), "readRequest#idle-duration", idle.Pos(), "idle deadline uses idleTimeout()", "idle deadline is "+d)
+	d := describe(idle.arg)
+	r.check(strings.Contains(d, "(*martian.Proxy).idleTimeout($0.Proxy)"), "readRequest#idle-duration", idle.site.Pos(), "idle deadline uses idleTimeout()", "idle deadline is "+d)
 	// zero deadline when the timeout is not positive
 	for _, s := range []struct {
-		call *ssa.Call
+		call deadline
 		cond string
 	}{{idle, "((*martian.Proxy).idleTimeout($0.Proxy) > 0)"}, {hdr, "((*martian.Proxy).readHeaderTimeout($0.Proxy) > 0)"}} {
-		phi, ok := s.call.Common().Args[0].(*ssa.Phi)
+		phi, ok := s.call.arg.(*ssa.Phi)
 		good := false
 		if ok {
 			for i, e := range phi.Edges {
-				if c, isC := e.(*ssa.Const); isC || describe(e) == "local:idleDeadline" || strings.HasPrefix(describe(e), "local:") {
-					_ = c
+				if _, isC := e.(*ssa.Const); isC || strings.HasPrefix(describe(e), "local:") {
 					continue
 				}
 				pred := phi.Block().Preds[i]
 				good = guardedBy(pred, eq(s.cond))
 			}
 		}
-		r.check(good || !ok && strings.Contains(describe(s.call.Common().Args[0]), "phi("), "readRequest#zero-when-off("+s.cond+")", s.call.Pos(), "a non-positive timeout means no deadline", "deadline armed although the timeout is not positive")
+		r.check(good || !ok && strings.Contains(describe(s.call.arg), "phi("), "readRequest#zero-when-off("+s.cond+")", s.call.site.Pos(), "a non-positive timeout means no deadline", "deadline armed although the timeout is not positive")
 	}
 	// fallbacks
 	for _, s := range []struct{ fn, own string }{{"idleTimeout", "$0.IdleTimeout"}, {"readHeaderTimeout", "$0.ReadHeaderTimeout"}} {
